@@ -1,8 +1,8 @@
 //verif:pkg pkg/fuse
 //verif:use store,aferostub,fusehelp
 //verif:assume the mutable file system is driven through its fuseutil.FileSystem methods the way the kernel drives them: rmdir only on directories, unlink only on non-directories, rename only between entries of compatible kinds and never of a directory into itself (the kernel's VFS refuses the other cases before they reach the file system); one ForgetInode for every inode whose last name was removed (lookup count 1: no extra lookups are issued while the program runs)
-//verif:assume programs of 3 (thorough: 4) operations chosen by the solver from {mkdir, create, write (append two bytes, or overwrite the first byte), truncate (to nothing, or two bytes longer), unlink, rmdir, rename} over the parents {root, directory d} and the names {d, x}; the staging area is an in-memory afero.Fs model; commit runs the real Commit() (real cafs, BLAKE2b as UF) and the committed bundle is read back with DownloadMetadata
-//verif:cover VerifC18Programs eexist enoent enotempty renamed replaced-by-rename committed-nested-file in-place-overwrite extending-truncate
+//verif:assume programs of 3 (thorough: 4) operations - from the empty tree, or 2 (thorough: 3) after a fixed three-operation prelude (mkdir d, create d/x, write d/x; or create x, unlink x, mkdir d) - chosen by the solver from {mkdir, create, write (append two bytes, or overwrite the first byte), truncate (to nothing, or two bytes longer), unlink, rmdir, rename} over the parents {root, directory d} and the names {d, x}; the staging area is an in-memory afero.Fs model; commit runs the real Commit() (real cafs, BLAKE2b as UF) and the committed bundle is read back with DownloadMetadata
+//verif:cover VerifC18Programs eexist enoent enotempty renamed replaced-by-rename committed-nested-file in-place-overwrite extending-truncate prelude-nested-file prelude-inode-reuse
 package fuse
 
 import (
@@ -87,8 +87,17 @@ func VerifC18Programs() {
 	forget := func(n *vRefNode) {
 		vAssert(fs.ForgetInode(ctx, &fuseops.ForgetInodeOp{Inode: n.ino, N: 1}) == nil, "forget")
 	}
+	var script []int // scripted choices of the prelude, consumed before the solver chooses
+	choose := func(tag string, k int) int {
+		if len(script) > 0 {
+			v := script[0]
+			script = script[1:]
+			return v
+		}
+		return vChoose(tag, k)
+	}
 	pickParent := func(tag string) string {
-		if d, ok := ref["d"]; ok && d.dir && vChoose(tag, 2) == 1 {
+		if d, ok := ref["d"]; ok && d.dir && choose(tag, 2) == 1 {
 			return "d"
 		}
 		return ""
@@ -98,12 +107,25 @@ func VerifC18Programs() {
 	if vThorough() {
 		nOps = 4
 	}
+	// an optional concrete prelude (run through the same code as the solver-chosen steps) puts the mount into a
+	// state that short programs do not reach from the empty tree: a file with content inside a directory, or an
+	// inode number that was freed and handed out again
+	switch vChoose("prelude", 3) {
+	case 1:
+		script = []int{0, 0 /* mkdir d */, 1, 1, 1 /* create d/x */, 1, 1, 2 /* write d/x */}
+		nOps += 2
+		vCover("prelude-nested-file")
+	case 2:
+		script = []int{1, 1 /* create x */, 1, 3 /* unlink x */, 0, 0 /* mkdir d */}
+		nOps += 2
+		vCover("prelude-inode-reuse")
+	}
 	for step := 0; step < nOps; step++ {
 		p := pickParent("parent")
-		n := names[vChoose("name", 2)]
+		n := names[choose("name", 2)]
 		path := join(p, n)
 		cur := ref[path]
-		switch vChoose("op", 7) {
+		switch choose("op", 7) {
 		case 0: // mkdir
 			op := &fuseops.MkDirOp{Parent: parentIno(p), Name: n}
 			err := fs.MkDir(ctx, op)
@@ -131,7 +153,7 @@ func VerifC18Programs() {
 				vAssume(false)
 			}
 			off := len(cur.data) // append, or overwrite the first byte of a non-empty file
-			if len(cur.data) > 0 && vChoose("overwriteFirstByte", 2) == 1 {
+			if len(cur.data) > 0 && choose("overwriteFirstByte", 2) == 1 {
 				off = 0
 				vCover("in-place-overwrite")
 			}
@@ -153,7 +175,7 @@ func VerifC18Programs() {
 				vAssume(false)
 			}
 			size := uint64(0)
-			if vChoose("extend", 2) == 1 {
+			if choose("extend", 2) == 1 {
 				size = uint64(len(cur.data) + 2)
 				vCover("extending-truncate")
 			}
@@ -196,7 +218,7 @@ func VerifC18Programs() {
 			}
 		default: // rename path -> p2/n2
 			p2 := pickParent("newParent")
-			n2 := names[vChoose("newName", 2)]
+			n2 := names[choose("newName", 2)]
 			dst := join(p2, n2)
 			if dst == path {
 				vAssume(false) // the kernel returns early for a rename onto itself
